@@ -1,1 +1,250 @@
-//! reference machine
+//! Reference LC-3 machine (non-strict semantics), written from the ISA (Patt & Patel 3rd ed.:
+//! TRAP/RTI on the supervisor stack, interrupts, exceptions, ACV) and from the crate's documentation
+//! for what the ISA leaves to the simulator (virtual traps, MMIO devices, frames, access observer).
+//! It is a flat-array machine and shares no code with the crate.
+#![allow(dead_code)]
+use crate::refasm::{decode_ref, DecErr, RI, RO};
+use std::collections::{BTreeMap, HashMap, VecDeque};
+
+#[derive(Clone, Copy, Debug, PartialEq, Eq)]
+pub enum RErr { IllegalOpcode, InvalidInstrFormat, PrivilegeViolation, AccessViolation }
+#[derive(Clone, Copy, Debug, PartialEq, Eq)]
+pub enum Outcome { Ok, Halt, Err(RErr) }
+
+#[derive(Clone, Copy, Debug, PartialEq, Eq)]
+pub enum IReg { PC, PSR, MCR, SavedSP }
+#[derive(Clone, Copy, Debug, PartialEq, Eq)]
+pub enum FType { Subroutine, Trap, Interrupt }
+#[derive(Clone, Debug, PartialEq, Eq)]
+pub struct RFrame { pub caller: u16, pub callee: u16, pub ftype: FType, pub frame_ptr: Option<u16>, pub args: Vec<u16> }
+#[derive(Clone, Debug, PartialEq, Eq)]
+pub enum Sig { CallingConvention(usize), PassByRegister(Vec<u8>) }
+
+pub const READ: u8 = 1;
+pub const WRITTEN: u8 = 2;
+pub const MODIFIED: u8 = 4;
+
+pub const KBSR: u16 = 0xFE00;
+pub const KBDR: u16 = 0xFE02;
+pub const DSR: u16 = 0xFE04;
+pub const DDR: u16 = 0xFE06;
+pub const PSR_ADDR: u16 = 0xFFFC;
+pub const MCR_ADDR: u16 = 0xFFFE;
+
+/// What kind of step was taken (for coverage accounting and the adopt-not-assert rules).
+#[derive(Clone, Copy, Debug, PartialEq, Eq)]
+pub enum StepKind { Instr, InterruptEntry, GatedInterrupt, ExceptionEntry, TrapEntry }
+
+#[derive(Clone)]
+pub struct RefSim {
+    pub mem: Vec<u16>,
+    pub reg: [u16; 8],
+    pub pc: u16,
+    pub psr: u16,
+    pub saved_sp: u16,
+    pub prefetch: bool,
+    pub instructions_run: u64,
+    pub frame_no: u64,
+    pub frames: Vec<RFrame>,
+    pub real_traps: bool,
+    pub ignore_privilege: bool,
+    pub debug_frames: bool,
+    pub kbd: Option<VecDeque<u8>>,
+    pub kbd_ie: bool,
+    pub display: Option<Vec<u8>>,
+    pub ireg: HashMap<u16, IReg>,
+    pub mcr: bool,
+    pub acc: BTreeMap<u16, u8>,
+    pub sr_sigs: HashMap<u16, Sig>,
+    /// filled by step(): what happened
+    pub last_kind: StepKind,
+    /// address of the stack slot that received the pushed PC in the last entry (for adoption)
+    pub last_pushed_pc_addr: Option<u16>,
+    /// an interrupt request was presented at the last boundary but its priority did not exceed the current one
+    pub last_gated: bool,
+}
+
+fn user(a: u16) -> bool { (0x3000..0xFE00).contains(&a) }
+
+impl RefSim {
+    pub fn new() -> RefSim {
+        RefSim {
+            mem: vec![0; 65536], reg: [0; 8], pc: 0x3000, psr: 0x8002, saved_sp: 0x3000, prefetch: false, instructions_run: 0,
+            frame_no: 0, frames: vec![], real_traps: false, ignore_privilege: false, debug_frames: false,
+            kbd: None, kbd_ie: false, display: None,
+            ireg: HashMap::from([(PSR_ADDR, IReg::PSR), (MCR_ADDR, IReg::MCR)]), mcr: false, acc: BTreeMap::new(), sr_sigs: HashMap::new(),
+            last_kind: StepKind::Instr, last_pushed_pc_addr: None, last_gated: false,
+        }
+    }
+    pub fn privileged(&self) -> bool { self.psr >> 15 == 0 }
+    pub fn priority(&self) -> u8 { ((self.psr >> 8) & 7) as u8 }
+    pub fn cc(&self) -> u8 { (self.psr & 7) as u8 }
+    fn ctx_priv(&self) -> bool { self.privileged() || self.ignore_privilege }
+    pub fn set_cc_bits(&mut self, cc: u8) {
+        let mut cc = cc & 7;
+        if cc.count_ones() != 1 { cc = 0b010; }
+        self.psr = (self.psr & 0xFFF8) | cc as u16;
+    }
+    fn set_cc(&mut self, v: u16) { self.set_cc_bits(if (v as i16) < 0 { 4 } else if v == 0 { 2 } else { 1 }); }
+    /// what a store to the PSR port does
+    pub fn psr_store(&mut self, v: u16) { self.psr = v & 0x8707; self.set_cc_bits((v & 7) as u8); }
+    pub fn prefetch_pc(&self) -> u16 { self.pc.wrapping_sub(if self.prefetch { 0 } else { 1 }) }
+
+    fn ireg_read(&self, r: IReg) -> u16 { match r { IReg::PC => self.pc, IReg::PSR => self.psr, IReg::MCR => (self.mcr as u16) << 15, IReg::SavedSP => self.saved_sp } }
+    fn ireg_write(&mut self, r: IReg, v: u16) { match r { IReg::PC => self.pc = v, IReg::PSR => self.psr_store(v), IReg::MCR => self.mcr = v >> 15 == 1, IReg::SavedSP => self.saved_sp = v } }
+
+    fn dev_read(&mut self, a: u16, effects: bool) -> Option<u16> {
+        match a {
+            KBSR => self.kbd.as_ref().map(|q| ((!q.is_empty()) as u16) << 15 | (self.kbd_ie as u16) << 14),
+            KBDR => { let q = self.kbd.as_mut()?; if effects { q.pop_front().map(|b| b as u16) } else { q.front().map(|b| *b as u16) } }
+            DSR => self.display.as_ref().map(|_| 0x8000),
+            _ => None,
+        }
+    }
+    fn dev_write(&mut self, a: u16, v: u16) -> bool {
+        match a {
+            KBSR if self.kbd.is_some() => { self.kbd_ie = (v >> 14) & 1 == 1; true }
+            DDR => match self.display.as_mut() { Some(d) => { d.push(v as u8); true } None => false },
+            _ => false,
+        }
+    }
+
+    /// Memory read as the machine performs it (privilege check, MMIO, access tracking).
+    pub fn read(&mut self, a: u16, privileged: bool, effects: bool, track: bool) -> Result<u16, RErr> {
+        if !privileged && !user(a) { return Err(RErr::AccessViolation); }
+        if a >= 0xFE00 {
+            if let Some(r) = self.ireg.get(&a).copied() { self.mem[a as usize] = self.ireg_read(r); }
+            else if let Some(v) = self.dev_read(a, effects) { self.mem[a as usize] = v; }
+        }
+        if track { *self.acc.entry(a).or_insert(0) |= READ; }
+        Ok(self.mem[a as usize])
+    }
+    pub fn write(&mut self, a: u16, v: u16, privileged: bool, track: bool) -> Result<(), RErr> {
+        if !privileged && !user(a) { return Err(RErr::AccessViolation); }
+        let ok = if a >= 0xFE00 {
+            if let Some(r) = self.ireg.get(&a).copied() { self.ireg_write(r, v); true } else { self.dev_write(a, v) }
+        } else { true };
+        if ok {
+            if track { let e = self.acc.entry(a).or_insert(0); *e |= WRITTEN; if self.mem[a as usize] != v { *e |= MODIFIED; } }
+            self.mem[a as usize] = v;
+        }
+        Ok(())
+    }
+    fn rd(&mut self, a: u16) -> Result<u16, RErr> { let p = self.ctx_priv(); self.read(a, p, true, true) }
+    fn wr(&mut self, a: u16, v: u16) -> Result<(), RErr> { let p = self.ctx_priv(); self.write(a, v, p, true) }
+
+    fn push_frame(&mut self, caller: u16, callee: u16, ftype: FType) {
+        self.frame_no += 1;
+        if self.debug_frames {
+            let sig = match ftype {
+                FType::Subroutine | FType::Interrupt => self.sr_sigs.get(&callee).cloned(),
+                FType::Trap => match callee { 0x20 | 0x23 | 0x25 => Some(Sig::PassByRegister(vec![])), 0x21 | 0x22 | 0x24 => Some(Sig::PassByRegister(vec![0])), _ => None },
+            };
+            let (fp, args) = match sig {
+                Some(Sig::CallingConvention(n)) => { let fp = self.reg[6].wrapping_sub(4); (Some(fp), (0..n).map(|i| self.mem[fp.wrapping_add(4).wrapping_add(i as u16) as usize]).collect()) }
+                Some(Sig::PassByRegister(rs)) => (None, rs.iter().map(|r| self.reg[*r as usize]).collect()),
+                None => (None, vec![]),
+            };
+            self.frames.push(RFrame { caller, callee, ftype, frame_ptr: fp, args });
+        }
+    }
+    fn pop_frame(&mut self) { self.frame_no = self.frame_no.saturating_sub(1); if self.debug_frames { self.frames.pop(); } }
+
+    /// Trap / interrupt / exception entry. `vect` is the table address (x00-xFF traps, x100-x1FF interrupts and exceptions).
+    fn enter(&mut self, vect: u16, prio: Option<u8>) -> Outcome {
+        if let Some(p) = prio { if p <= self.priority() { self.last_kind = StepKind::GatedInterrupt; return Outcome::Ok; } }
+        if !self.real_traps && matches!(vect, 0x25 | 0x100 | 0x101 | 0x102) {
+            if !self.prefetch { self.pc = self.pc.wrapping_sub(1); self.prefetch = true; }
+            return match vect { 0x25 => Outcome::Halt, 0x100 => Outcome::Err(RErr::PrivilegeViolation), 0x101 => Outcome::Err(RErr::IllegalOpcode), _ => Outcome::Err(RErr::AccessViolation) };
+        }
+        if !self.privileged() { std::mem::swap(&mut self.saved_sp, &mut self.reg[6]); }
+        let (old_psr, old_pc) = (self.psr, self.pc);
+        self.psr &= 0x7FFF;
+        let sp = self.reg[6];
+        self.reg[6] = sp.wrapping_sub(2);
+        // supervisor-mode stores cannot raise ACV
+        let _ = self.write(sp.wrapping_sub(1), old_psr, true, true);
+        let _ = self.write(sp.wrapping_sub(2), old_pc, true, true);
+        self.last_pushed_pc_addr = Some(sp.wrapping_sub(2));
+        self.set_cc_bits(0b010); // not fixed by the ISA: adopted from the implementation by the comparison harness
+        if let Some(p) = prio { self.psr = (self.psr & 0xF8FF) | ((p as u16 & 7) << 8); }
+        // the vector is fetched with the privilege in force after the pushes (a supervisor stack placed over
+        // the PSR port can drop the privilege again: then this is an access violation like any other)
+        let p = self.ctx_priv();
+        let t = match self.read(vect, p, true, true) { Ok(t) => t, Err(e) => return Outcome::Err(e) };
+        let ft = if prio.is_some() { FType::Interrupt } else { FType::Trap };
+        let caller = self.prefetch_pc();
+        self.push_frame(caller, vect, ft);
+        self.pc = t;
+        Outcome::Ok
+    }
+
+    fn exec(&mut self) -> Result<Outcome, RErr> {
+        let w = self.rd(self.pc)?;
+        let i = match decode_ref(w) { Ok(i) => i, Err(DecErr::IllegalOpcode) => return Err(RErr::IllegalOpcode), Err(DecErr::InvalidFormat) => return Err(RErr::InvalidInstrFormat) };
+        self.pc = self.pc.wrapping_add(1);
+        self.prefetch = false;
+        let pcoff = |s: &RefSim, o: i16| s.pc.wrapping_add(o as u16);
+        match i {
+            RI::Br(c, o) => { if c & self.cc() != 0 { self.pc = pcoff(self, o); } }
+            RI::Add(d, s, x) => { let b = match x { RO::Reg(r) => self.reg[r as usize], RO::Imm(v) => v as u16 }; let r = self.reg[s as usize].wrapping_add(b); self.reg[d as usize] = r; self.set_cc(r); }
+            RI::And(d, s, x) => { let b = match x { RO::Reg(r) => self.reg[r as usize], RO::Imm(v) => v as u16 }; let r = self.reg[s as usize] & b; self.reg[d as usize] = r; self.set_cc(r); }
+            RI::Not(d, s) => { let r = !self.reg[s as usize]; self.reg[d as usize] = r; self.set_cc(r); }
+            RI::Ld(d, o) => { let v = self.rd(pcoff(self, o))?; self.reg[d as usize] = v; self.set_cc(v); }
+            RI::Ldi(d, o) => { let a = self.rd(pcoff(self, o))?; let v = self.rd(a)?; self.reg[d as usize] = v; self.set_cc(v); }
+            RI::Ldr(d, b, o) => { let a = self.reg[b as usize].wrapping_add(o as u16); let v = self.rd(a)?; self.reg[d as usize] = v; self.set_cc(v); }
+            RI::Lea(d, o) => { self.reg[d as usize] = pcoff(self, o); }
+            RI::St(s, o) => { let v = self.reg[s as usize]; self.wr(pcoff(self, o), v)?; }
+            RI::Sti(s, o) => { let a = self.rd(pcoff(self, o))?; let v = self.reg[s as usize]; self.wr(a, v)?; }
+            RI::Str(s, b, o) => { let a = self.reg[b as usize].wrapping_add(o as u16); let v = self.reg[s as usize]; self.wr(a, v)?; }
+            RI::Jmp(b) => { self.pc = self.reg[b as usize]; if b == 7 { self.pop_frame(); } }
+            RI::Jsr(o) => { let t = pcoff(self, o); self.reg[7] = self.pc; let c = self.prefetch_pc(); self.push_frame(c, t, FType::Subroutine); self.pc = t; }
+            RI::Jsrr(b) => { let t = self.reg[b as usize]; self.reg[7] = self.pc; let c = self.prefetch_pc(); self.push_frame(c, t, FType::Subroutine); self.pc = t; }
+            RI::Rti => {
+                if !self.ctx_priv() { return Err(RErr::PrivilegeViolation); }
+                let sp = self.reg[6];
+                let pc = self.read(sp, true, true, true)?;
+                let psr = self.read(sp.wrapping_add(1), true, true, true)?;
+                self.reg[6] = sp.wrapping_add(2);
+                self.pc = pc;
+                self.psr = psr;
+                if !self.privileged() { std::mem::swap(&mut self.saved_sp, &mut self.reg[6]); }
+                self.pop_frame();
+            }
+            RI::Trap(v) => {
+                self.last_kind = StepKind::TrapEntry;
+                match self.enter(v as u16, None) { Outcome::Ok => {}, other => return Ok(other) }
+            }
+        }
+        self.instructions_run = self.instructions_run.wrapping_add(1);
+        Ok(Outcome::Ok)
+    }
+
+    /// One machine step. `pending`: the vectored interrupt (vector, priority) the devices present at this
+    /// boundary, already arbitrated by the caller except for the keyboard, which is added here.
+    pub fn step(&mut self, pending: Option<(u8, u8)>) -> Outcome {
+        self.prefetch = true;
+        self.last_kind = StepKind::Instr;
+        self.last_pushed_pc_addr = None;
+        self.last_gated = false;
+        let kb = match &self.kbd { Some(q) if self.kbd_ie && !q.is_empty() => Some((0x80u8, 4u8)), _ => None };
+        // highest priority wins (callers never present two requests of equal priority)
+        let req = match (kb, pending) { (Some(a), Some(b)) => Some(if b.1 >= a.1 { b } else { a }), (a, b) => a.or(b) };
+        let mut taken = false;
+        let mut r = Outcome::Ok;
+        if let Some((v, p)) = req {
+            if p > self.priority() { self.last_kind = StepKind::InterruptEntry; taken = true; r = self.enter(0x100 + v as u16, Some(p)); } else { self.last_gated = true; }
+        }
+        if !taken { r = match self.exec() { Ok(o) => o, Err(e) => Outcome::Err(e) }; }
+        if self.real_traps {
+            let v = match r { Outcome::Halt => Some(0x25), Outcome::Err(RErr::PrivilegeViolation) => Some(0x100), Outcome::Err(RErr::IllegalOpcode) | Outcome::Err(RErr::InvalidInstrFormat) => Some(0x101), Outcome::Err(RErr::AccessViolation) => Some(0x102), Outcome::Ok => None };
+            if let Some(v) = v { self.last_kind = StepKind::ExceptionEntry; return self.enter(v, None); }
+        }
+        r
+    }
+
+    /// Mnemonic of the instruction at PC (for signatures/coverage), without side effects.
+    pub fn class_at_pc(&self) -> &'static str {
+        match decode_ref(self.mem[self.pc as usize]) { Ok(i) => crate::refasm::ri_name(&i), Err(DecErr::IllegalOpcode) => "RESERVED", Err(DecErr::InvalidFormat) => "BADFORMAT" }
+    }
+}
